@@ -141,6 +141,7 @@ func verifSchemaSB() *schema.BodySchema {
 							"size":   {Constraint: schema.AnyExpression{OfType: cty.Number}, IsRequired: true},
 						},
 						Blocks: map[string]*schema.BlockSchema{
+							"plain": {Body: &schema.BodySchema{Attributes: map[string]*schema.AttributeSchema{"v": {Constraint: schema.AnyExpression{OfType: cty.Number}, IsOptional: true}}}},
 							"rule": {Body: &schema.BodySchema{Attributes: map[string]*schema.AttributeSchema{"port": {Constraint: num, IsOptional: true}},
 								Extensions: &schema.BodyExtensions{SelfRefs: true}}, MaxItems: 2},
 						},
@@ -304,6 +305,14 @@ func verifSeedList() []verifSeed {
 		{"alst-multiline", "alst = [\n  var.foo,\n  var.\n]\n", 0},
 		{"astr-func-multiline", "astr = f1(\n  var.foo\n)\n", 0},
 		{"amap-ref-multiline", "amap = {\n  k = var.foo\n}\n", 0},
+		// calls: comments between arguments, variadic, nesting, trailing comma
+		{"call-comment", "anum = f2( 1, /* c */ 2 )\n", 0},
+		{"call-linecomment", "anum = f2(\n  1, # c\n  2\n)\n", 0},
+		{"call-variadic", "astr = fv( \"a\", \"b\", \"c\" )\n", 0},
+		{"call-nested", "astr = f1( fv( \"x\", \"y\" ) )\n", 0},
+		{"call-trailing-comma", "anum = f2( 1, )\n", 0},
+		{"call-too-many", "astr = f1( \"a\", \"b\" )\n", 0},
+		{"call-noparams", "astr = f0( )\n", 0},
 		// SB
 		{"res-aws", "res \"aws\" \"a\" {\n  marker = \"x\"\n  size = 1\n}\n", 2},
 		{"res-aws-rule", "res \"aws\" \"a\" {\n  size = 1\n  rule {\n    port = 80\n  }\n}\n", 2},
@@ -312,6 +321,7 @@ func verifSeedList() []verifSeed {
 		{"res-count", "res \"aws\" \"a\" {\n  count = 2\n  size = count.index\n}\n", 2},
 		{"res-foreach", "res \"aws\" \"a\" {\n  for_each = var.x\n  size = each.value\n}\n", 2},
 		{"res-self", "res \"aws\" \"a\" {\n  size = 1\n  marker = self.size\n}\n", 2},
+		{"res-self-nested", "res \"aws\" \"a\" {\n  size = 1\n  marker = self.size\n  plain {\n    v = self.size\n  }\n  rule {\n    port = self.size\n  }\n}\n", 2},
 		{"res-dynamic", "res \"aws\" \"a\" {\n  size = 1\n  dynamic \"rule\" {\n    for_each = var.x\n    content {\n      port = 1\n    }\n  }\n}\n", 2},
 		{"res-partial-label", "res \"a\n", 2},
 		{"res-one-label", "res \"aws\" {\n}\n", 2},
@@ -320,6 +330,7 @@ func verifSeedList() []verifSeed {
 		{"variable", "variable \"v\" {\n  type = list(string)\n  default = [ \"a\" ]\n}\n", 2},
 		{"variable-notype", "variable \"w\" {\n}\n", 2},
 		{"locals", "locals {\n  a = \"x\"\n  b = { k = 1 }\n  c = [ 1, 2 ]\n}\n", 2},
+		{"locals-nested", "locals {\n  c = [ [ \"a\", \"b\" ], [ \"c\" ] ]\n  o = { k = { x = 1, y = 2 }, l = { z = 3 } }\n  t = [ 1, 2, 3 ]\n}\n", 2},
 		{"data", "data \"d\" {\n  id = \"i\"\n  lst {\n    v = \"a\"\n  }\n  lst {\n    v = \"b\"\n  }\n  obj {\n    w = 1\n  }\n}\n", 2},
 		{"out-refs", "out \"o\" {\n  value = var.v\n  deps = [ aws.a, gcp.b ]\n}\n", 2},
 		{"top-attr", "top = \"t\"\n", 2},
